@@ -16,6 +16,7 @@ import common as C
 import crash_runs as CR
 import framework as FW
 import gen_full as GF
+import nomix_corr as NM
 
 PID = "C16"
 BAD = ("panic", "process-crash", "engine-error", "hang")
@@ -74,6 +75,40 @@ def plan_units_stage(chk, tier, seed):
     chk.ev.cov["plan_unit_inputs_compared"] = compared
 
 
+def nomix_units_input(rng):
+    """JSON input whose plan units (precedence chains) carry mixing items in every shape the validation accepts"""
+    stops = []
+    sid = 0
+    for _ in range(rng.randint(2, 6)):
+        name = rng.choice("AB")
+        r = rng.random()
+        q, q2 = rng.randint(1, 3), rng.randint(1, 2)
+        if r < 0.35:
+            ds = [q, -q]
+        elif r < 0.55:
+            ds = [None] * rng.randint(1, 2) + [q, -q]
+        elif r < 0.70:
+            ds = rng.choice([[q + q2, -q, -q2], [q, q2, -q - q2], [q, -q, q2, -q2], [q, None, -q]])
+        elif r < 0.85:
+            ds = rng.choice([[1, -2, 1], [1, -3, 2], [None, 1, -2, 1]])
+        elif r < 0.93:
+            ds = rng.choice([[q, -q, 0], [0, q, -q], [q, 0, -q]])
+        else:
+            ds = [None]
+        ids = ["s%d" % (sid + k) for k in range(len(ds))]
+        for k, d in enumerate(ds):
+            st = {"id": ids[k], "location": {"lat": 51.0 + 0.003 * rng.randint(0, 9), "lon": 7.0 + 0.003 * rng.randint(0, 9)},
+                  "unplanned_penalty": rng.choice([1000, 100000])}
+            if d is not None:
+                st["mixing_items"] = {"m": {"name": name, "quantity": d}}
+            if k + 1 < len(ds):
+                st["precedes"] = ids[k + 1] if rng.random() < 0.8 else [{"id": ids[k + 1], "direct": True}]
+            stops.append(st)
+        sid += len(ds)
+    vehicles = [{"id": "v%d" % v, "start_location": {"lat": 51.0, "lon": 7.0}, "speed": 10} for v in range(rng.randint(1, 2))]
+    return {"stops": stops, "vehicles": vehicles}
+
+
 def run(tier, seed, replay=None):
     chk = FW.Check(PID, tier, seed)
     if not chk.builds(model=True, harness=True):
@@ -122,6 +157,16 @@ def run(tier, seed, replay=None):
         meta["m%d" % i] = (inp, opts, "valid-nomix")
         blocks.append(("m%d" % i, GF.case_lines(inp, opts, dict(settings, iterations=60, duration_ms=1500, starts=i % 2))))
     n += n3
+    # no-mix units of every shape the validation lets through: chains (precedes) whose first stop carries no item, that remove
+    # before they insert or more than they inserted, items of quantity zero; one or two vehicles
+    n5 = 300 if tier == "quick" else 6000
+    for i in range(n5):
+        inp = nomix_units_input(rng)
+        opts = neutral_options()
+        opts["constraints"]["disable"]["mixing_items"] = False
+        meta["x%d" % i] = (inp, opts, "valid-nomix-units")
+        blocks.append(("x%d" % i, GF.case_lines(inp, opts, dict(settings, iterations=80, duration_ms=1500, starts=i % 3))))
+    n += n5
     res = CR.run_crash(blocks, "c16_" + tier, timeout=3000)
     # models assembled through the public Go API: vehicles sharing vehicle types, sparse per-type settings
     n4 = 400 if tier == "quick" else 8000
@@ -151,6 +196,8 @@ def run(tier, seed, replay=None):
                 obj["finding_shape"] = {"kind": "no_mix_engine_error"}
             chk.violation(obj)
     plan_units_stage(chk, tier, seed)
+    # the no-mix rule on API-built models: scripted moves, estimate vs exact rule (Model/NoMix.v)
+    NM.stage(chk, seed * 1009 + 1697, 300 if tier == "quick" else 8000, size="small" if tier == "quick" else "medium")
     missing = [cid for cid, _ in blocks if cid not in res]
     chk.ob("every case reached an outcome (%d corpus + %d generated)" % (ncorp, n), not missing, "no outcome for %s" % missing[:5])
     chk.ob("no panic / process crash / hang / engine error (outcome classes: %s)" % classes, not chk.violations)
